@@ -165,6 +165,10 @@ impl Ctx {
         *self.counters.lock().unwrap().entry(name.to_string()).or_insert(0) += by;
     }
 
+    pub fn counter(&self, name: &str) -> u64 {
+        self.counters.lock().unwrap().get(name).copied().unwrap_or(0)
+    }
+
     pub fn set(&self, name: &str, val: Value) {
         self.extra.lock().unwrap().insert(name.to_string(), val);
     }
